@@ -14,6 +14,8 @@ import (
 
 	log "github.com/hashicorp/go-hclog"
 	"github.com/openbao/openbao/v2/internal/audit"
+	"github.com/openbao/openbao/v2/internal/command/server"
+	"github.com/openbao/openbao/v2/internal/helper/configutil"
 	"github.com/openbao/openbao/v2/internal/helper/namespace"
 	"github.com/openbao/openbao/v2/internal/helper/testhelpers/corehelpers"
 	"github.com/openbao/openbao/v2/internal/vault"
@@ -110,6 +112,12 @@ func coreConfig(d *Disk, o CoreOpts) *vault.CoreConfig {
 	}
 	if conf.NumExpirationWorkers == 0 {
 		conf.NumExpirationWorkers = 4
+	}
+	if len(o.Audit) > 0 {
+		rc := new(server.Config)
+		rc.SharedConfig = new(configutil.SharedConfig)
+		rc.UnsafeAllowAPIAuditCreation = true
+		conf.RawConfig = rc
 	}
 	for k, v := range o.Logical {
 		conf.LogicalBackends[k] = v
